@@ -45,7 +45,10 @@ def impl(case):
         tree = ["entry", case["title"], case["value"]]
     else:
         tree = ["text", s]
-    return rc.impl_render(rc.build(tree), w)
+    obj = rc.build(tree)
+    if case.get("first_w") is not None:
+        rc.impl_render(obj, case["first_w"])      # the same widget object was rendered before at another width
+    return rc.impl_render(obj, w)
 
 
 def tree_of(case):
@@ -180,6 +183,9 @@ def random_cases(rng, n):
         s = rand_text(rng, 400)
         for _ in range(rng.choice([1, 2, 3])):
             out.append(dict(kind="text", s=s, w=rand_width(rng, s)))
+            if rng.random() < 0.3:
+                w2 = rand_width(rng, s)
+                out.append(dict(kind="text", s=s, w=w2, first_w=rng.choice([max(1, w2 - 1), max(1, w2 // 2), 3, 8, w2 + 7])))
     return out
 
 
